@@ -342,10 +342,13 @@ Qed.
 (* ======================================================================================
    Operator level: the queue workers in front of the limiters (C18_Model.advance_q_lim ...).
 
-   Every execution start in the ghost log is preceded by its own limiter call that was
-   granted for that very instant, so the starts of a hook are a subsequence of the grants
-   of ITS limiter over the sorted list of ITS request instants; the window bound of the
-   limiter level carries over to subsequences. *)
+   Every execution start in the ghost log happens at an instant the hook's limiter granted:
+   at once after a limiter call that was granted for that very instant, or - after a sleep -
+   at the wake-up instant of a sleeper, which holds a grant nobody else uses (starts and
+   pending wake-up instants together are a sub-multiset of the grants, [hinv]).  Starts and
+   grants are both in time order, so the starts of a hook are a subsequence of the grants of
+   ITS limiter over the sorted list of ITS request instants; the window bound of the limiter
+   level carries over to subsequences. *)
 Unset Implicit Arguments.
 
 (* ---- subsequences ---- *)
@@ -440,43 +443,121 @@ Proof. induction l1 as [|[h' t a|h' q t] r IH]; cbn; [reflexivity | destruct (N.
 Lemma starts_in_app h l1 l2 : starts_in h (l1 ++ l2) = starts_in h l1 ++ starts_in h l2.
 Proof. induction l1 as [|[h' t a|h' q t] r IH]; cbn; [reflexivity | exact IH | destruct (N.eqb h' h); cbn; [f_equal|]; exact IH]. Qed.
 
-(* ---- a generic invariant of the workers: closed under "a limiter call" and under
-        "a limiter call granted for now, then the start of the execution" ---- *)
-Section Generic.
-  Variable Q : Z -> limiters -> list levent -> Prop.
-  Variable R : Z -> Z -> Prop.      (* how time may move from one action to the next *)
-  Hypothesis Q_time : forall now now' lims log, R now now' -> Q now lims log -> Q now' lims log.
-  Hypothesis Q_req : forall now lims log h' b' a,
-    Q now lims log -> reserve (lims h') now = (b', a) ->
-    Q now (set_lim lims h' b') (log ++ [LReq h' now a]).
-  Hypothesis Q_start : forall now lims log h' b' q,
-    Q now lims log -> reserve (lims h') now = (b', Some now) ->
-    Q now (set_lim lims h' b') ((log ++ [LReq h' now (Some now)]) ++ [LStart h' q now]).
+(* ---- sleepers ---- *)
 
-  Lemma advance_q_lim_Q cfg qok now qn : forall fuel items w items' st w',
-    Q now (w_lims w) (w_log w) ->
+(* no sleeper's instant lies before [now] *)
+Definition winv (now : Z) (wt : waiting) : Prop :=
+  Forall (fun e => match we_until e with Some u => now <= u | None => True end) wt.
+
+Lemma winv_app now wt1 wt2 : winv now wt1 -> winv now wt2 -> winv now (wt1 ++ wt2).
+Proof. intros H1 H2. apply Forall_app; split; assumption. Qed.
+
+Lemma winv_remove now q wt : winv now wt -> winv now (remove_entry q wt).
+Proof.
+  unfold winv, remove_entry. intros H. induction H as [|e r He Hr IH]; cbn [filter]; [constructor|].
+  destruct (negb _); [constructor; assumption | exact IH].
+Qed.
+
+Lemma due_false_winv now wt : due now wt = false -> winv now wt.
+Proof.
+  unfold due, winv. induction wt as [|e r IH]; cbn [existsb]; intros H; [constructor|].
+  apply orb_false_iff in H as [H1 H2]. constructor; [|exact (IH H2)].
+  destruct (we_until e) as [u|]; [|exact I]. apply Z.leb_gt in H1. lia.
+Qed.
+
+(* the sleeper chosen by [earliest_due] is a sleeper, its instant has come, and no other
+   sleeper's instant lies before it *)
+Lemma earliest_due_spec now : forall wt e u,
+  earliest_due now wt = Some (e, u) ->
+  In e wt /\ we_until e = Some u /\ u <= now /\ winv u wt.
+Proof.
+  induction wt as [|e0 r IH]; intros e u H; [discriminate|].
+  cbn [earliest_due] in H. destruct (we_until e0) as [u0|] eqn:E0.
+  - destruct (u0 <=? now) eqn:El.
+    + apply Z.leb_le in El.
+      destruct (earliest_due now r) as [[e' u']|] eqn:Er.
+      * destruct (IH e' u' eq_refl) as (Hin & Hu & Hle & Hw).
+        destruct (u' <? u0) eqn:Elt; inversion H; subst.
+        -- apply Z.ltb_lt in Elt. split; [right; exact Hin|]. split; [exact Hu|]. split; [exact Hle|].
+           constructor; [rewrite E0; lia | exact Hw].
+        -- apply Z.ltb_ge in Elt. split; [left; reflexivity|]. split; [exact E0|]. split; [exact El|].
+           constructor; [rewrite E0; lia|].
+           eapply Forall_impl; [|exact Hw]. cbn. intros a Ha. destruct (we_until a); [lia | exact I].
+      * inversion H; subst. split; [left; reflexivity|]. split; [exact E0|]. split; [exact El|].
+        constructor; [rewrite E0; lia|].
+        (* nobody else is due *)
+        clear - Er El. induction r as [|a r IHr]; [constructor|].
+        cbn [earliest_due] in Er. destruct (we_until a) as [ua|] eqn:Ea.
+        -- destruct (ua <=? now) eqn:Ela.
+           ++ destruct (earliest_due now r) as [[e' u']|]; [destruct (u' <? ua)|]; discriminate.
+           ++ apply Z.leb_gt in Ela. constructor; [rewrite Ea; lia | exact (IHr Er)].
+        -- constructor; [rewrite Ea; exact I | exact (IHr Er)].
+    + apply Z.leb_gt in El. destruct (IH e u H) as (Hin & Hu & Hle & Hw).
+      split; [right; exact Hin|]. split; [exact Hu|]. split; [exact Hle|].
+      constructor; [rewrite E0; lia | exact Hw].
+  - destruct (IH e u H) as (Hin & Hu & Hle & Hw).
+    split; [right; exact Hin|]. split; [exact Hu|]. split; [exact Hle|].
+    constructor; [rewrite E0; exact I | exact Hw].
+Qed.
+
+(* ---- a generic invariant of the workers: closed under the limiter calls (granted for now
+        and skipped, granted for now and started, granted for later, refused), under waking
+        up and under the passing of time ---- *)
+Section Generic.
+  Variable Q : Z -> limiters -> waiting -> list levent -> Prop.
+  Variable le : Z -> Z -> Prop.      (* how time may move from one action to the next *)
+  Hypothesis le_of_Zle : forall a b, a <= b -> le a b.
+  Hypothesis le_trans : forall a b c, le a b -> le b c -> le a c.
+  Hypothesis Q_time : forall now now' lims wt log,
+    le now now' -> due now' wt = false -> Q now lims wt log -> Q now' lims wt log.
+  Hypothesis Q_wake_time : forall now n lims wt log e u,
+    earliest_due n wt = Some (e, u) -> Q now lims wt log -> Q u lims wt log.
+  Hypothesis Q_req : forall now lims wt log h' b',
+    Q now lims wt log -> reserve (lims h') now = (b', Some now) ->
+    Q now (set_lim lims h' b') wt (log ++ [LReq h' now (Some now)]).
+  Hypothesis Q_start : forall now lims wt log h' b' q,
+    Q now lims wt log -> reserve (lims h') now = (b', Some now) ->
+    Q now (set_lim lims h' b') wt ((log ++ [LReq h' now (Some now)]) ++ [LStart h' q now]).
+  Hypothesis Q_wait : forall now lims wt log h' b' q act,
+    Q now lims wt log -> reserve (lims h') now = (b', Some act) -> now < act ->
+    Q now (set_lim lims h' b') (wt ++ [(q, Some act, h')]) (log ++ [LReq h' now (Some act)]).
+  Hypothesis Q_refused : forall now lims wt log h' b' q,
+    Q now lims wt log -> reserve (lims h') now = (b', None) ->
+    Q now (set_lim lims h' b') (wt ++ [(q, None, h')]) (log ++ [LReq h' now None]).
+  Hypothesis Q_wake_start : forall now lims wt log e,
+    Q now lims wt log -> In e wt -> we_until e = Some now ->
+    Q now lims (remove_entry (we_queue e) wt) (log ++ [LStart (we_hook e) (we_queue e) now]).
+  Hypothesis Q_wake_skip : forall now lims wt log q,
+    Q now lims wt log -> Q now lims (remove_entry q wt) log.
+
+  Lemma advance_q_lim_Q cfg qok now qn : forall fuel items w wt items' st w',
+    Q now (w_lims w) wt (w_log w) ->
     advance_q_lim fuel cfg qok now qn items w = (items', st, w') ->
-    Q now (w_lims w') (w_log w').
+    Q now (w_lims w') (wt ++ wait_of qn st) (w_log w').
   Proof.
-    induction fuel as [|fuel IH]; intros items w items' st w' HQ H.
-    - cbn in H. inversion H; subst. exact HQ.
-    - cbn [advance_q_lim] in H. destruct items as [|t rest]; [inversion H; subst; exact HQ|].
+    induction fuel as [|fuel IH]; intros items w wt items' st w' HQ H.
+    - cbn in H. inversion H; subst. cbn [wait_of]. rewrite app_nil_r. exact HQ.
+    - cbn [advance_q_lim] in H. destruct items as [|t rest]; [inversion H; subst; cbn [wait_of]; rewrite app_nil_r; exact HQ|].
       destruct (t_type t).
       + (* HookRun *)
         destruct (reserve (w_lims w (t_hook t)) now) as [b' a] eqn:Er.
-        pose proof (Q_req now _ _ (t_hook t) b' a HQ Er) as H1.
-        destruct a as [act|]; [|inversion H; subst; exact H1].
-        destruct (now <? act) eqn:El; [inversion H; subst; exact H1|].
-        assert (Ea : act = now).
-        { apply Z.ltb_ge in El. pose proof (reserve_ge _ _ _ _ Er). lia. }
-        subst act.
-        destruct (should_run _ t).
-        * pose proof (Q_start now _ _ (t_hook t) b' qn HQ Er) as H2.
-          cbn [w_sh w_lims w_log] in H.
-          destruct (negb _ && should_combine t && qok (t_queue t)).
-          -- destruct (combine t rest). inversion H; subst. exact H2.
-          -- inversion H; subst. exact H2.
-        * eapply IH; [|exact H]. exact H1.
+        destruct a as [act|].
+        * destruct (now <? act) eqn:El.
+          -- apply Z.ltb_lt in El. inversion H; subst. cbn [wait_of w_lims w_log].
+             exact (Q_wait now _ _ _ (t_hook t) b' qn act HQ Er El).
+          -- assert (Ea : act = now).
+             { apply Z.ltb_ge in El. pose proof (reserve_ge _ _ _ _ Er). lia. }
+             subst act.
+             destruct (should_run _ t).
+             ++ pose proof (Q_start now _ _ _ (t_hook t) b' qn HQ Er) as H2.
+                cbn [w_sh w_lims w_log] in H.
+                destruct (negb _ && should_combine t && qok (t_queue t)).
+                ** destruct (combine t rest). inversion H; subst. cbn [wait_of]. rewrite app_nil_r. exact H2.
+                ** inversion H; subst. cbn [wait_of]. rewrite app_nil_r. exact H2.
+             ++ eapply IH; [|exact H]. cbn [w_lims w_log].
+                exact (Q_req now _ _ _ (t_hook t) b' HQ Er).
+        * inversion H; subst. cbn [wait_of w_lims w_log].
+          exact (Q_refused now _ _ _ (t_hook t) b' qn HQ Er).
       + (* EnableKube *)
         destruct (find_hook cfg (t_hook t)); eapply IH; try exact H; exact HQ.
       + (* EnableSched *)
@@ -484,9 +565,9 @@ Section Generic.
   Qed.
 
   Lemma advance_all_lim_Q cfg qok now : forall qs wt w qs' wt' w',
-    Q now (w_lims w) (w_log w) ->
+    Q now (w_lims w) wt (w_log w) ->
     advance_all_lim cfg qok now wt qs w = (qs', wt', w') ->
-    Q now (w_lims w') (w_log w').
+    Q now (w_lims w') wt' (w_log w').
   Proof.
     induction qs as [|q r IH]; intros wt w qs' wt' w' HQ H.
     - cbn in H. inversion H; subst. exact HQ.
@@ -496,87 +577,383 @@ Section Generic.
       + destruct (advance_q_lim _ cfg qok now (q_name q) (q_items q) w) as [[items st] w1] eqn:E1.
         destruct (advance_all_lim cfg qok now (wt ++ wait_of (q_name q) st) r w1) as [[r1 wt1] w2] eqn:E2.
         inversion H; subst.
-        exact (IH _ _ _ _ _ (advance_q_lim_Q _ _ _ _ _ _ _ _ _ _ HQ E1) E2).
+        exact (IH _ _ _ _ _ (advance_q_lim_Q _ _ _ _ _ _ _ _ _ _ _ HQ E1) E2).
+  Qed.
+
+  Lemma resume_q_Q cfg qok stp now e : forall items w wt items' st w',
+    Q now (w_lims w) wt (w_log w) -> In e wt -> we_until e = Some now ->
+    match items with t :: _ => t_hook t = we_hook e | [] => True end ->
+    resume_q cfg qok stp now (we_queue e) items w = (items', st, w') ->
+    Q now (w_lims w') (remove_entry (we_queue e) wt ++ wait_of (we_queue e) st) (w_log w').
+  Proof.
+    intros items w wt items' st w' HQ Hin Hu Hh H.
+    unfold resume_q in H. destruct items as [|t rest].
+    - inversion H; subst. cbn [wait_of]. rewrite app_nil_r. apply Q_wake_skip. exact HQ.
+    - destruct (should_run _ t).
+      + pose proof (Q_wake_start now _ _ _ e HQ Hin Hu) as H2. rewrite <- Hh in H2.
+        cbn [w_sh w_lims w_log] in H.
+        destruct (negb _ && should_combine t && qok (t_queue t)).
+        * destruct (combine t rest). inversion H; subst. cbn [wait_of]. rewrite app_nil_r. exact H2.
+        * inversion H; subst. cbn [wait_of]. rewrite app_nil_r. exact H2.
+      + pose proof (Q_wake_skip now _ _ _ (we_queue e) HQ) as H2.
+        destruct stp.
+        * inversion H; subst. cbn [wait_of w_lims w_log]. rewrite app_nil_r. exact H2.
+        * eapply advance_q_lim_Q; [|exact H]. exact H2.
+  Qed.
+
+  Lemma wake_in_Q cfg qok stp now e : forall qs w wt qs' wtn w',
+    Q now (w_lims w) wt (w_log w) -> In e wt -> we_until e = Some now ->
+    wake_in cfg qok stp now (we_queue e) (we_hook e) qs w = (qs', wtn, w') ->
+    Q now (w_lims w') (remove_entry (we_queue e) wt ++ wtn) (w_log w').
+  Proof.
+    induction qs as [|q r IH]; intros w wt qs' wtn w' HQ Hin Hu H.
+    - cbn in H. inversion H; subst. rewrite app_nil_r. apply Q_wake_skip. exact HQ.
+    - cbn [wake_in] in H. destruct (N.eqb (q_name q) (we_queue e)).
+      + destruct (q_items q) as [|t rest] eqn:Ei.
+        * inversion H; subst. rewrite app_nil_r. apply Q_wake_skip. exact HQ.
+        * destruct (N.eqb (t_hook t) (we_hook e) && is_hookrun t) eqn:Eh.
+          -- apply andb_true_iff in Eh as [Eh _]. apply N.eqb_eq in Eh.
+             destruct (resume_q cfg qok stp now (we_queue e) (t :: rest) w) as [[items st] w1] eqn:Er.
+             inversion H; subst.
+             eapply resume_q_Q; [exact HQ | exact Hin | exact Hu | | exact Er]. exact Eh.
+          -- inversion H; subst. rewrite app_nil_r. apply Q_wake_skip. exact HQ.
+      + destruct (wake_in cfg qok stp now (we_queue e) (we_hook e) r w) as [[r1 wt1] w1] eqn:E.
+        inversion H; subst. exact (IH _ _ _ _ _ HQ Hin Hu E).
+  Qed.
+
+  Definition Qs (now : Z) (ls : lstate) : Prop := Q now (l_lims ls) (l_waiting ls) (l_log ls).
+
+  Lemma wake_one_Q cfg e u ls : Qs u ls -> In e (l_waiting ls) -> we_until e = Some u -> Qs u (wake_one cfg e u ls).
+  Proof.
+    intros HQ Hin Hu. unfold Qs, wake_one.
+    destruct (wake_in _ _ _ _ _ _ _ _) as [[qs wtn] w] eqn:E. cbn [l_lims l_waiting l_log].
+    eapply wake_in_Q; [| exact Hin | exact Hu | exact E]. exact HQ.
+  Qed.
+
+  Lemma wake_due_Q cfg n : forall fuel ls now,
+    Qs now ls -> le now n -> exists now', Qs now' (wake_due fuel cfg n ls) /\ le now' n.
+  Proof.
+    induction fuel as [|fuel IH]; intros ls now HQ Hle; [exists now; split; assumption|].
+    cbn [wake_due]. destruct (earliest_due n (l_waiting ls)) as [[e u]|] eqn:Ed; [|exists now; split; assumption].
+    destruct (earliest_due_spec _ _ _ _ Ed) as (Hin & Hu & Hun & _).
+    apply (IH _ u).
+    - apply wake_one_Q; [|exact Hin | exact Hu]. exact (Q_wake_time now n _ _ _ e u Ed HQ).
+    - apply le_of_Zle. exact Hun.
   Qed.
 
   Lemma step_lim_Q cfg ls ta now :
-    Q now (l_lims ls) (l_log ls) -> R now (fst ta) ->
-    Q (fst ta) (l_lims (step_lim cfg ls ta)) (l_log (step_lim cfg ls ta)).
+    Qs now ls -> le now (fst ta) -> exists now', Qs now' (step_lim cfg ls ta) /\ le now' (fst ta).
   Proof.
-    intros HQ Ht. apply (Q_time _ _ _ _ Ht) in HQ.
-    unfold step_lim, advance_lim. cbn [l_op l_waiting l_lims l_log l_overrun].
-    destruct (stopped _); [exact HQ|].
-    destruct (advance_all_lim _ _ _ _ _ _) as [[qs wt] w] eqn:E. cbn [l_lims l_log].
-    eapply advance_all_lim_Q; [|exact E]. exact HQ.
+    intros HQ Ht. unfold step_lim.
+    destruct (wake_due_Q cfg (fst ta) (wake_fuel cfg ls) ls now HQ Ht) as (now1 & HQ1 & Hle1).
+    set (ls1 := wake_due (wake_fuel cfg ls) cfg (fst ta) ls) in *.
+    destruct (due (fst ta) (l_waiting ls1)) eqn:Ed; [exists now1; split; assumption|].
+    exists (fst ta). split; [|apply le_of_Zle; lia].
+    pose proof (Q_time _ _ _ _ _ Hle1 Ed HQ1) as HQ2.
+    unfold Qs, advance_lim. cbn [l_op l_waiting l_lims l_log l_overrun].
+    destruct (stopped _); [exact HQ2|].
+    destruct (advance_all_lim _ _ _ _ _ _) as [[qs wt] w] eqn:E. cbn [l_lims l_log l_waiting].
+    eapply advance_all_lim_Q; [|exact E]. exact HQ2.
   Qed.
 
   Fixpoint chain (now : Z) (l : list Z) : Prop :=
-    match l with [] => True | t :: r => R now t /\ chain t r end.
+    match l with [] => True | t :: r => le now t /\ chain t r end.
+
+  Lemma chain_weaken a b l : le a b -> chain b l -> chain a l.
+  Proof. destruct l as [|t r]; [auto|]. cbn. intros H [H1 H2]. split; [exact (le_trans _ _ _ H H1) | exact H2]. Qed.
 
   Lemma run_lim_Q cfg : forall script ls now,
-    Q now (l_lims ls) (l_log ls) -> chain now (map fst script) ->
-    exists now', Q now' (l_lims (run_lim cfg ls script)) (l_log (run_lim cfg ls script)).
+    Qs now ls -> chain now (map fst script) ->
+    exists now', Qs now' (run_lim cfg ls script).
   Proof.
     induction script as [|ta r IH]; intros ls now HQ Hc.
     - exists now. exact HQ.
     - cbn [map chain] in Hc. destruct Hc as [Ht Hc]. cbn [run_lim fold_left].
-      apply (IH (step_lim cfg ls ta) (fst ta)); [apply (step_lim_Q cfg ls ta now HQ Ht) | exact Hc].
+      destruct (step_lim_Q cfg ls ta now HQ Ht) as (now1 & HQ1 & Hle1).
+      apply (IH (step_lim cfg ls ta) now1); [exact HQ1 | exact (chain_weaken _ _ _ Hle1 Hc)].
   Qed.
 End Generic.
 
+(* ---- multisets of instants ---- *)
+Definition cnt (l : list Z) (v : Z) : nat := count_occ Z.eq_dec l v.
+
+Lemma cnt_app l1 l2 v : cnt (l1 ++ l2) v = (cnt l1 v + cnt l2 v)%nat.
+Proof. apply count_occ_app. Qed.
+
+(* wake-up instants of the workers that sleep for hook h *)
+Definition pend_of (h : N) (e : wentry) : list Z :=
+  if N.eqb (we_hook e) h then match we_until e with Some u => [u] | None => [] end else [].
+Definition pend (h : N) (wt : waiting) : list Z := flat_map (pend_of h) wt.
+
+Lemma pend_app h wt1 wt2 : pend h (wt1 ++ wt2) = pend h wt1 ++ pend h wt2.
+Proof. apply flat_map_app. Qed.
+
+Lemma pend_remove_le h q v : forall wt, (cnt (pend h (remove_entry q wt)) v <= cnt (pend h wt) v)%nat.
+Proof.
+  induction wt as [|e r IH]; [cbn; lia|].
+  unfold remove_entry in *. cbn [filter]. destruct (negb _).
+  - change (pend h (e :: ?l)) with (pend_of h e ++ pend h l). rewrite !cnt_app. lia.
+  - change (pend h (e :: r)) with (pend_of h e ++ pend h r). rewrite cnt_app. lia.
+Qed.
+
+Lemma pend_remove_in h v : forall wt e,
+  In e wt -> (cnt (pend h (remove_entry (we_queue e) wt)) v + cnt (pend_of h e) v <= cnt (pend h wt) v)%nat.
+Proof.
+  induction wt as [|e0 r IH]; intros e Hin; [destruct Hin|].
+  change (pend h (e0 :: r)) with (pend_of h e0 ++ pend h r). rewrite cnt_app.
+  destruct Hin as [E|Hin].
+  - subst e0. unfold remove_entry at 1. cbn [filter]. rewrite N.eqb_refl. cbn [negb].
+    pose proof (pend_remove_le h (we_queue e) v r) as Hle. unfold remove_entry in Hle. lia.
+  - specialize (IH e Hin). unfold remove_entry in *. cbn [filter]. destruct (negb _).
+    + change (pend h (e0 :: ?l)) with (pend_of h e0 ++ pend h l). rewrite cnt_app. lia.
+    + lia.
+Qed.
+
+(* a sorted sub-multiset of a sorted list is a subsequence of it *)
+Lemma sortedb_Forall : forall l x, sortedb (x :: l) = true -> Forall (fun y => x <= y) l.
+Proof.
+  induction l as [|y r IH]; intros x H; [constructor|].
+  apply sortedb_cons in H as [Hxy Hs]. constructor; [exact Hxy|].
+  eapply Forall_impl; [|exact (IH y Hs)]. cbn. intros; lia.
+Qed.
+
+Lemma sortedb_tail x l : sortedb (x :: l) = true -> sortedb l = true.
+Proof. destruct l as [|y r]; [reflexivity|]. intros H. apply sortedb_cons in H as [_ H]. exact H. Qed.
+
+Lemma cnt_pos_In l v : (0 < cnt l v)%nat -> In v l.
+Proof. intros H. apply (count_occ_In Z.eq_dec). exact H. Qed.
+
+Lemma cnt_zero_below l x v : Forall (fun y => x <= y) l -> v < x -> cnt l v = 0%nat.
+Proof.
+  intros Hf Hlt. apply (count_occ_not_In Z.eq_dec). intros Hin.
+  rewrite Forall_forall in Hf. specialize (Hf v Hin). lia.
+Qed.
+
+Lemma sorted_msub_sub : forall l l',
+  sortedb l = true -> sortedb l' = true -> (forall v, (cnt l' v <= cnt l v)%nat) -> Sub l' l.
+Proof.
+  induction l as [|x r IH]; intros l' Hs Hs' Hc.
+  - destruct l' as [|y r']; [constructor|]. specialize (Hc y). unfold cnt in Hc. cbn in Hc.
+    destruct (Z.eq_dec y y); [lia | congruence].
+  - destruct l' as [|y r']; [constructor|].
+    destruct (Z.eq_dec x y) as [E|Hn].
+    + subst y. apply Sub_take. apply IH; [exact (sortedb_tail _ _ Hs) | exact (sortedb_tail _ _ Hs')|].
+      intros v. specialize (Hc v). unfold cnt in *. cbn [count_occ] in Hc. destruct (Z.eq_dec x v); lia.
+    + apply Sub_skip. apply IH; [exact (sortedb_tail _ _ Hs) | exact Hs'|].
+      (* x < y: y occurs in x :: r, which is sorted *)
+      assert (Hxy : x < y).
+      { assert (Hin : In y (x :: r)).
+        { apply cnt_pos_In. specialize (Hc y). unfold cnt in *. cbn [count_occ] in Hc |- *.
+          destruct (Z.eq_dec y y); [lia | congruence]. }
+        destruct Hin as [E|Hin]; [congruence|].
+        pose proof (sortedb_Forall _ _ Hs) as Hf. rewrite Forall_forall in Hf. specialize (Hf y Hin). lia. }
+      intros v. specialize (Hc v). unfold cnt in *. cbn [count_occ] in Hc.
+      destruct (Z.eq_dec x v) as [E|_]; [|exact Hc].
+      subst v. fold (cnt (y :: r') x).
+      rewrite (cnt_zero_below (y :: r') y x); [lia | | exact Hxy].
+      constructor; [lia | exact (sortedb_Forall _ _ Hs')].
+Qed.
+
+(* ---- the grants of a limiter never go back in time ---- *)
+Lemma sortedb_cons_intro x l : Forall (fun y => x <= y) l -> sortedb l = true -> sortedb (x :: l) = true.
+Proof.
+  destruct l as [|y r]; [reflexivity|]. intros Hf Hs. inversion Hf; subst.
+  change (sortedb (x :: y :: r)) with ((x <=? y) && sortedb (y :: r)).
+  apply andb_true_iff; split; [apply Z.leb_le; assumption | exact Hs].
+Qed.
+
+Lemma grants_sorted_lim I B : 0 < I -> 1 <= B ->
+  forall arr b l, lim_state I B b l -> sortedb (l :: arr) = true ->
+  sortedb (somes (grants b arr)) = true /\
+  Forall (fun a => l <= a /\ zb b l + I <= a) (somes (grants b arr)).
+Proof.
+  intros HI HB arr. induction arr as [|t r IH]; intros b l Hst Hs.
+  - split; [reflexivity | constructor].
+  - apply sortedb_cons in Hs as [Hle Hs].
+    destruct (reserve_step HI HB Hst Hle) as (b' & a & Hr & Hst' & Hz & Ha).
+    cbn [grants]. rewrite Hr. cbn [somes].
+    destruct (IH b' t Hst' Hs) as [IH1 IH2]. split.
+    + apply sortedb_cons_intro; [|exact IH1].
+      eapply Forall_impl; [|exact IH2]. cbn. intros x [H1 H2]. lia.
+    + constructor; [lia|]. eapply Forall_impl; [|exact IH2]. cbn. intros x [H1 H2]. lia.
+Qed.
+
+Lemma grants_refused b : forall arr I, b_limit b = Some I -> b_burst b < 1 -> somes (grants b arr) = [].
+Proof.
+  induction arr as [|t r IH]; intros I Hl Hb; [reflexivity|].
+  cbn [grants]. unfold reserve, reserve_n. rewrite Hl.
+  destruct (Z.leb_spec 1 (b_burst b)) as [H|_]; [lia|]. cbn [andb somes]. exact (IH I Hl Hb).
+Qed.
+
+Lemma somes_map_Some A (l : list A) : somes (map Some l) = l.
+Proof. induction l as [|x r IH]; cbn; [reflexivity | f_equal; exact IH]. Qed.
+
+Lemma grants_sorted cfg arr : sortedb arr = true ->
+  sortedb (somes (grants (create_rate_limiter cfg) arr)) = true.
+Proof.
+  intros Hs.
+  assert (Hinf : forall b, b_limit b = None -> sortedb (somes (grants b arr)) = true).
+  { intros b Hb. rewrite (grants_inf b Hb), somes_map_Some. exact Hs. }
+  destruct cfg as [[I B]|]; [|apply Hinf; reflexivity].
+  unfold create_rate_limiter. cbn [s_interval s_burst].
+  destruct (I =? 0) eqn:E0; [apply Hinf; reflexivity|].
+  unfold every. destruct (I <=? 0) eqn:E1; [apply Hinf; reflexivity|].
+  apply Z.leb_gt in E1.
+  set (B' := if B =? 0 then 1 else B).
+  destruct (Z.le_gt_cases 1 B') as [HB|HB].
+  - change (new_limiter (Some I) B') with (bucket0 I B'). rewrite (grants_first I arr HB).
+    destruct arr as [|t r]; [reflexivity|].
+    apply (@grants_sorted_lim I B' E1 HB (t :: r) _ t); [unfold lim_state; cbn; auto | apply sortedb_dup; exact Hs].
+  - rewrite (grants_refused (new_limiter (Some I) B') arr I); [reflexivity | reflexivity | cbn; lia].
+Qed.
+
 (* ---- the invariant of one hook's limiter ---- *)
-Definition hinv (b0 : bucket) (h : N) (now : Z) (lims : limiters) (log : list levent) : Prop :=
+Definition hinv (b0 : bucket) (h : N) (now : Z) (lims : limiters) (wt : waiting) (log : list levent) : Prop :=
   lims h = bucket_after b0 (reqs_of h log) /\
   acts_of h log = grants b0 (reqs_of h log) /\
   Forall (fun t => t <= now) (reqs_of h log) /\
   sortedb (reqs_of h log) = true /\
-  Sub (starts_in h log) (somes (acts_of h log)).
+  Forall (fun t => t <= now) (starts_in h log) /\
+  sortedb (starts_in h log) = true /\
+  winv now wt /\
+  (forall v, (cnt (starts_in h log) v + cnt (pend h wt) v <= cnt (somes (acts_of h log)) v)%nat).
 
 Lemma set_lim_same lims h b : set_lim lims h b h = b.
 Proof. unfold set_lim. rewrite N.eqb_refl. reflexivity. Qed.
 Lemma set_lim_other lims h h' b : h' <> h -> set_lim lims h' b h = lims h.
 Proof. unfold set_lim. intros Hn. destruct (N.eqb_spec h h'); [congruence | reflexivity]. Qed.
 
-Lemma hinv_time b0 h now now' lims log : now <= now' -> hinv b0 h now lims log -> hinv b0 h now' lims log.
+Lemma Forall_le_mono l a b : a <= b -> Forall (fun t => t <= a) l -> Forall (fun t => t <= b) l.
+Proof. intros Hab H. eapply Forall_impl; [|exact H]. cbn. intros; lia. Qed.
+
+Lemma hinv_time b0 h now now' lims wt log :
+  now <= now' -> due now' wt = false -> hinv b0 h now lims wt log -> hinv b0 h now' lims wt log.
 Proof.
-  intros Hle (H1 & H2 & H3 & H4 & H5). repeat split; try assumption.
-  eapply Forall_impl; [|exact H3]. cbn. intros; lia.
+  intros Hle Hd (H1 & H2 & H3 & H4 & H5 & H6 & H7 & H8).
+  repeat split; try assumption; try (eapply Forall_le_mono; eassumption).
+  apply due_false_winv. exact Hd.
 Qed.
 
-Lemma hinv_req b0 h now lims log h' b' a :
-  hinv b0 h now lims log -> reserve (lims h') now = (b', a) ->
-  hinv b0 h now (set_lim lims h' b') (log ++ [LReq h' now a]).
+Lemma hinv_wake_time b0 h now n lims wt log e u :
+  earliest_due n wt = Some (e, u) -> hinv b0 h now lims wt log -> hinv b0 h u lims wt log.
 Proof.
-  intros (H1 & H2 & H3 & H4 & H5) Er. unfold hinv.
+  intros Hd (H1 & H2 & H3 & H4 & H5 & H6 & H7 & H8).
+  destruct (earliest_due_spec _ _ _ _ Hd) as (Hin & Hu & _ & Hw).
+  assert (Hle : now <= u).
+  { unfold winv in H7. rewrite Forall_forall in H7. specialize (H7 e Hin). rewrite Hu in H7. exact H7. }
+  repeat split; try assumption; eapply Forall_le_mono; eassumption.
+Qed.
+
+(* a limiter call of hook h' at [now]: what it does to the first four parts *)
+Lemma hinv_call b0 h now lims log h' b' a :
+  lims h = bucket_after b0 (reqs_of h log) -> acts_of h log = grants b0 (reqs_of h log) ->
+  Forall (fun t => t <= now) (reqs_of h log) -> sortedb (reqs_of h log) = true ->
+  reserve (lims h') now = (b', a) ->
+  let log' := log ++ [LReq h' now a] in
+  set_lim lims h' b' h = bucket_after b0 (reqs_of h log') /\
+  acts_of h log' = grants b0 (reqs_of h log') /\
+  Forall (fun t => t <= now) (reqs_of h log') /\ sortedb (reqs_of h log') = true /\
+  starts_in h log' = starts_in h log /\
+  somes (acts_of h log') = somes (acts_of h log) ++ (if N.eqb h' h then match a with Some x => [x] | None => [] end else []).
+Proof.
+  intros H1 H2 H3 H4 Er. cbv zeta.
   rewrite reqs_of_app, acts_of_app, starts_in_app. cbn [reqs_of acts_of starts_in].
   destruct (N.eqb_spec h' h) as [E|Hn].
   - subst h'. rewrite set_lim_same, bucket_after_snoc, grants_snoc, <- H1, Er. cbn [fst snd].
-    rewrite app_nil_r, somes_app. repeat split.
+    rewrite !app_nil_r, somes_app. split; [reflexivity|]. split; [|split; [|split; [|split]]].
     + rewrite H2. reflexivity.
     + apply Forall_app; split; [exact H3 | constructor; [lia | constructor]].
     + apply sortedb_snoc; assumption.
-    + destruct a as [x|]; cbn [somes]; [apply Sub_snoc_r; exact H5 | rewrite app_nil_r; exact H5].
-  - rewrite (set_lim_other _ _ _ _ Hn), !app_nil_r. repeat split; assumption.
+    + reflexivity.
+    + destruct a; reflexivity.
+  - rewrite (set_lim_other _ _ _ _ Hn), !app_nil_r. split; [exact H1|]. split; [exact H2|]. split; [exact H3|]. split; [exact H4|]. split; reflexivity.
 Qed.
 
-Lemma hinv_start b0 h now lims log h' b' q :
-  hinv b0 h now lims log -> reserve (lims h') now = (b', Some now) ->
-  hinv b0 h now (set_lim lims h' b') ((log ++ [LReq h' now (Some now)]) ++ [LStart h' q now]).
+Lemma hinv_req b0 h now lims wt log h' b' :
+  hinv b0 h now lims wt log -> reserve (lims h') now = (b', Some now) ->
+  hinv b0 h now (set_lim lims h' b') wt (log ++ [LReq h' now (Some now)]).
 Proof.
-  intros (H1 & H2 & H3 & H4 & H5) Er. unfold hinv.
-  rewrite !reqs_of_app, !acts_of_app, !starts_in_app. cbn [reqs_of acts_of starts_in].
-  destruct (N.eqb_spec h' h) as [E|Hn].
-  - subst h'. rewrite set_lim_same, !app_nil_r, bucket_after_snoc, grants_snoc, <- H1, Er. cbn [fst snd].
-    rewrite somes_app. cbn [somes]. repeat split.
-    + rewrite H2. reflexivity.
-    + apply Forall_app; split; [exact H3 | constructor; [lia | constructor]].
-    + apply sortedb_snoc; assumption.
-    + apply Sub_snoc; exact H5.
-  - rewrite (set_lim_other _ _ _ _ Hn), !app_nil_r. repeat split; assumption.
+  intros (H1 & H2 & H3 & H4 & H5 & H6 & H7 & H8) Er.
+  destruct (hinv_call b0 h now lims log h' b' (Some now) H1 H2 H3 H4 Er) as (G1 & G2 & G3 & G4 & G5 & G6).
+  unfold hinv. rewrite G5, G6. repeat split; try assumption.
+  intros v. specialize (H8 v). rewrite cnt_app. lia.
 Qed.
 
-Lemma hinv_init hs h now : hinv (init_limiters hs h) h now (init_limiters hs) [].
-Proof. unfold hinv. cbn. repeat split; constructor. Qed.
+Lemma hinv_start b0 h now lims wt log h' b' q :
+  hinv b0 h now lims wt log -> reserve (lims h') now = (b', Some now) ->
+  hinv b0 h now (set_lim lims h' b') wt ((log ++ [LReq h' now (Some now)]) ++ [LStart h' q now]).
+Proof.
+  intros Hh Er. destruct (hinv_req b0 h now lims wt log h' b' Hh Er) as (G1 & G2 & G3 & G4 & G5 & G6 & G7 & G8).
+  destruct Hh as (H1 & H2 & H3 & H4 & H5 & H6 & H7 & H8).
+  destruct (hinv_call b0 h now lims log h' b' (Some now) H1 H2 H3 H4 Er) as (_ & _ & _ & _ & K5 & K6).
+  set (log1 := log ++ [LReq h' now (Some now)]) in *.
+  unfold hinv. rewrite (reqs_of_app h log1), (acts_of_app h log1), (starts_in_app h log1).
+  cbn [reqs_of acts_of starts_in]. rewrite !app_nil_r.
+  repeat split; try assumption.
+  - destruct (N.eqb h' h); [|rewrite app_nil_r; exact G5].
+    apply Forall_app; split; [exact G5 | constructor; [lia | constructor]].
+  - destruct (N.eqb h' h); [|rewrite app_nil_r; exact G6].
+    apply sortedb_snoc; assumption.
+  - intros v. specialize (H8 v). rewrite K6, K5. destruct (N.eqb h' h).
+    + rewrite !cnt_app. lia.
+    + rewrite !app_nil_r. exact H8.
+Qed.
+
+Lemma hinv_wait b0 h now lims wt log h' b' q act :
+  hinv b0 h now lims wt log -> reserve (lims h') now = (b', Some act) -> now < act ->
+  hinv b0 h now (set_lim lims h' b') (wt ++ [(q, Some act, h')]) (log ++ [LReq h' now (Some act)]).
+Proof.
+  intros (H1 & H2 & H3 & H4 & H5 & H6 & H7 & H8) Er Hlt.
+  destruct (hinv_call b0 h now lims log h' b' (Some act) H1 H2 H3 H4 Er) as (G1 & G2 & G3 & G4 & G5 & G6).
+  unfold hinv. rewrite G5, G6. repeat split; try assumption.
+  - apply winv_app; [exact H7|]. constructor; [cbn; lia | constructor].
+  - intros v. specialize (H8 v). rewrite pend_app, !cnt_app.
+    change (pend h [(q, Some act, h')]) with (pend_of h (q, Some act, h') ++ []). rewrite app_nil_r.
+    unfold pend_of. cbn [we_hook we_until fst snd]. lia.
+Qed.
+
+Lemma hinv_refused b0 h now lims wt log h' b' q :
+  hinv b0 h now lims wt log -> reserve (lims h') now = (b', None) ->
+  hinv b0 h now (set_lim lims h' b') (wt ++ [(q, None, h')]) (log ++ [LReq h' now None]).
+Proof.
+  intros (H1 & H2 & H3 & H4 & H5 & H6 & H7 & H8) Er.
+  destruct (hinv_call b0 h now lims log h' b' None H1 H2 H3 H4 Er) as (G1 & G2 & G3 & G4 & G5 & G6).
+  unfold hinv. rewrite G5, G6. repeat split; try assumption.
+  - apply winv_app; [exact H7|]. constructor; [cbn; exact I | constructor].
+  - intros v. specialize (H8 v). rewrite pend_app, !cnt_app.
+    change (pend h [(q, None, h')]) with (pend_of h (q, None, h') ++ []). rewrite app_nil_r.
+    unfold pend_of. cbn [we_hook we_until fst snd]. destruct (N.eqb h' h); cbn; lia.
+Qed.
+
+Lemma hinv_wake_skip b0 h now lims wt log q :
+  hinv b0 h now lims wt log -> hinv b0 h now lims (remove_entry q wt) log.
+Proof.
+  intros (H1 & H2 & H3 & H4 & H5 & H6 & H7 & H8). repeat split; try assumption.
+  - apply winv_remove. exact H7.
+  - intros v. specialize (H8 v). pose proof (pend_remove_le h q v wt). lia.
+Qed.
+
+Lemma hinv_wake_start b0 h now lims wt log e :
+  hinv b0 h now lims wt log -> In e wt -> we_until e = Some now ->
+  hinv b0 h now lims (remove_entry (we_queue e) wt) (log ++ [LStart (we_hook e) (we_queue e) now]).
+Proof.
+  intros (H1 & H2 & H3 & H4 & H5 & H6 & H7 & H8) Hin Hu. unfold hinv.
+  rewrite reqs_of_app, acts_of_app, starts_in_app. cbn [reqs_of acts_of starts_in]. rewrite !app_nil_r.
+  repeat split; try assumption.
+  - destruct (N.eqb (we_hook e) h); [|rewrite app_nil_r; exact H5].
+    apply Forall_app; split; [exact H5 | constructor; [lia | constructor]].
+  - destruct (N.eqb (we_hook e) h); [|rewrite app_nil_r; exact H6].
+    apply sortedb_snoc; assumption.
+  - apply winv_remove. exact H7.
+  - intros v. specialize (H8 v). pose proof (pend_remove_in h v wt e Hin) as Hp.
+    unfold pend_of in Hp. rewrite Hu in Hp.
+    destruct (N.eqb (we_hook e) h).
+    + rewrite cnt_app. lia.
+    + rewrite app_nil_r. lia.
+Qed.
+
+Lemma hinv_init hs h now : hinv (init_limiters hs h) h now (init_limiters hs) [] [].
+Proof. unfold hinv. cbn. repeat split; try constructor; try (intros v; cbn; lia). Qed.
 
 Lemma chain_le_of_sorted : forall l now, sortedb (now :: l) = true -> chain Z.le now l.
 Proof.
@@ -592,28 +969,51 @@ Definition final_log (cfg : config) (hs : hook_settings) (script : list (Z * act
 
 Lemma op_hinv cfg hs script h : sortedb (map fst script) = true ->
   exists now, hinv (init_limiters hs h) h now
-                   (l_lims (run_lim cfg (init_lim hs) script)) (final_log cfg hs script).
+                   (l_lims (run_lim cfg (init_lim hs) script))
+                   (l_waiting (run_lim cfg (init_lim hs) script)) (final_log cfg hs script).
 Proof.
   intros Hs. unfold final_log.
   set (now0 := match map fst script with [] => 0 | t :: _ => t end).
   apply (run_lim_Q (hinv (init_limiters hs h) h) Z.le) with (now := now0).
-  - intros now now' lims log. apply hinv_time.
-  - intros now lims log h' b' a. apply hinv_req.
-  - intros now lims log h' b' q. apply hinv_start.
+  - intros a b H; exact H.
+  - intros a b c; apply Z.le_trans.
+  - intros now now' lims wt log. apply hinv_time.
+  - intros now n lims wt log e u. apply hinv_wake_time.
+  - intros now lims wt log h' b'. apply hinv_req.
+  - intros now lims wt log h' b' q. apply hinv_start.
+  - intros now lims wt log h' b' q act. apply hinv_wait.
+  - intros now lims wt log h' b' q. apply hinv_refused.
+  - intros now lims wt log e. apply hinv_wake_start.
+  - intros now lims wt log q. apply hinv_wake_skip.
   - apply hinv_init.
   - apply chain_le_of_sorted. subst now0. destruct (map fst script) as [|t r]; [reflexivity|].
     apply sortedb_dup. exact Hs.
 Qed.
 
-(* every start of a hook's execution is one of the grants of its limiter *)
+(* every start of a hook's execution - at once or after a sleep in RateLimitWait - is one
+   of the grants of its limiter *)
 Lemma op_starts_are_grants cfg hs script h : sortedb (map fst script) = true ->
   let log := final_log cfg hs script in
   sortedb (reqs_of h log) = true /\
   acts_of h log = grants (create_rate_limiter (settings_of hs h)) (reqs_of h log) /\
   Sub (starts_in h log) (somes (acts_of h log)).
 Proof.
-  intros Hs. cbv zeta. destruct (op_hinv cfg hs script h Hs) as (now & _ & H2 & _ & H4 & H5).
-  repeat split; assumption.
+  intros Hs. cbv zeta. destruct (op_hinv cfg hs script h Hs) as (now & _ & H2 & _ & H4 & _ & H6 & _ & H8).
+  split; [exact H4|]. split; [exact H2|].
+  apply sorted_msub_sub; [| exact H6 |].
+  - rewrite H2. apply grants_sorted. exact H4.
+  - intros v. specialize (H8 v). lia.
+Qed.
+
+(* the sleepers of a hook hold grants of its limiter that have not been used: starts and
+   pending wake-up instants together are a sub-multiset of the grants *)
+Lemma op_sleepers_hold_grants cfg hs script h : sortedb (map fst script) = true ->
+  let ls := run_lim cfg (init_lim hs) script in
+  forall v, (cnt (starts_in h (l_log ls)) v + cnt (pend h (l_waiting ls)) v
+             <= cnt (somes (grants (create_rate_limiter (settings_of hs h)) (reqs_of h (l_log ls)))) v)%nat.
+Proof.
+  intros Hs. cbv zeta. destruct (op_hinv cfg hs script h Hs) as (now & _ & H2 & _ & _ & _ & _ & _ & H8).
+  intros v. specialize (H8 v). unfold final_log in *. rewrite H2 in H8. exact H8.
 Qed.
 
 Lemma op_respects_limit cfg hs script h I B :
@@ -626,15 +1026,15 @@ Proof.
 Qed.
 
 (* ---- hooks without settings: time plays no role ---- *)
-Definition uinv (h : N) (_ : Z) (lims : limiters) (log : list levent) : Prop :=
+Definition uinv (h : N) (_ : Z) (lims : limiters) (_ : waiting) (log : list levent) : Prop :=
   b_limit (lims h) = None /\ acts_of h log = map Some (reqs_of h log).
 
 Lemma reserve_inf b t : b_limit b = None -> reserve b t = (b, Some t).
 Proof. intros H. unfold reserve, reserve_n. rewrite H. reflexivity. Qed.
 
-Lemma uinv_req h now lims log h' b' a :
-  uinv h now lims log -> reserve (lims h') now = (b', a) ->
-  uinv h now (set_lim lims h' b') (log ++ [LReq h' now a]).
+Lemma uinv_call h now lims wt wt' log h' b' a :
+  uinv h now lims wt log -> reserve (lims h') now = (b', a) ->
+  uinv h now (set_lim lims h' b') wt' (log ++ [LReq h' now a]).
 Proof.
   intros (H1 & H2) Er. unfold uinv. rewrite reqs_of_app, acts_of_app. cbn [reqs_of acts_of].
   destruct (N.eqb_spec h' h) as [E|Hn].
@@ -643,12 +1043,10 @@ Proof.
   - rewrite (set_lim_other _ _ _ _ Hn), !app_nil_r. split; assumption.
 Qed.
 
-Lemma uinv_start h now lims log h' b' q :
-  uinv h now lims log -> reserve (lims h') now = (b', Some now) ->
-  uinv h now (set_lim lims h' b') ((log ++ [LReq h' now (Some now)]) ++ [LStart h' q now]).
+Lemma uinv_startev h now lims wt wt' log h' q t :
+  uinv h now lims wt log -> uinv h now lims wt' (log ++ [LStart h' q t]).
 Proof.
-  intros H Er. destruct (uinv_req h now lims log h' b' (Some now) H Er) as (H1 & H2).
-  unfold uinv. rewrite reqs_of_app, acts_of_app. cbn [reqs_of acts_of]. rewrite !app_nil_r.
+  intros (H1 & H2). unfold uinv. rewrite reqs_of_app, acts_of_app. cbn [reqs_of acts_of]. rewrite !app_nil_r.
   split; assumption.
 Qed.
 
@@ -671,9 +1069,16 @@ Proof.
   intros Hb. cbv zeta. unfold final_log.
   destruct (run_lim_Q (uinv h) (fun _ _ => True)) with (cfg := cfg) (script := script) (ls := init_lim hs) (now := 0)
     as (now & _ & H2).
-  - intros now now' lims log _ H. exact H.
-  - intros now lims log h' b' a. apply uinv_req.
-  - intros now lims log h' b' q. apply uinv_start.
+  - intros a b _; exact I.
+  - intros a b c _ _; exact I.
+  - intros now now' lims wt log _ _ H. exact H.
+  - intros now n lims wt log e u _ H. exact H.
+  - intros now lims wt log h' b'. apply uinv_call.
+  - intros now lims wt log h' b' q H Er. apply uinv_startev with (wt := wt). apply (uinv_call h now lims wt wt log h' b' (Some now) H Er).
+  - intros now lims wt log h' b' q act H Er _. apply (uinv_call h now lims wt _ log h' b' (Some act) H Er).
+  - intros now lims wt log h' b' q H Er. apply (uinv_call h now lims wt _ log h' b' None H Er).
+  - intros now lims wt log e H _ _. apply uinv_startev with (wt := wt). exact H.
+  - intros now lims wt log q H. exact H.
   - split; [exact Hb | reflexivity].
   - apply chain_any.
   - exact H2.
@@ -779,15 +1184,20 @@ Proof.
 Qed.
 
 Lemma step_is_pre_advance cfg s a : step cfg s a = op_advance cfg (pre_step cfg s a).
-Proof. reflexivity. Qed.
+Proof. destruct a; reflexivity. Qed.
+
+Lemma wake_due_nobody cfg now ls : forall fuel, l_waiting ls = [] -> wake_due fuel cfg now ls = ls.
+Proof. intros [|fuel] Hw; [reflexivity|]. cbn [wake_due]. rewrite Hw. reflexivity. Qed.
 
 Lemma step_lim_unlimited cfg ls ta :
   all_unlimited (l_lims ls) -> l_waiting ls = [] ->
   l_op (step_lim cfg ls ta) = step cfg (l_op ls) (snd ta) /\
   l_waiting (step_lim cfg ls ta) = [] /\ all_unlimited (l_lims (step_lim cfg ls ta)).
 Proof.
-  intros Hu Hw. rewrite step_is_pre_advance. unfold step_lim, advance_lim, op_advance.
-  cbn [l_op l_waiting l_lims l_log l_overrun]. rewrite Hw.
+  intros Hu Hw. rewrite step_is_pre_advance. unfold step_lim.
+  rewrite (wake_due_nobody cfg (fst ta) ls _ Hw), Hw. cbn [due existsb].
+  unfold advance_lim, op_advance.
+  cbn [l_op l_waiting l_lims l_log l_overrun].
   destruct (stopped (pre_step cfg (l_op ls) (snd ta))); [cbn; repeat split; auto|].
   match goal with |- context [advance_all_lim cfg ?qok (fst ta) [] ?qs ?w] =>
     destruct (advance_all_lim_unlimited cfg qok (fst ta) qs w Hu) as (w' & H1 & H2 & H3) end.
@@ -810,4 +1220,210 @@ Proof.
     cbn [run_lim fold_left map exec]. unfold run_lim, exec in IH.
     destruct (IH (step_lim cfg ls ta) H3 H2) as [G1 G2]. rewrite G1, H1. split; [reflexivity | exact G2]. }
   apply (G script (init_lim hs) Hu eq_refl).
+Qed.
+
+(* ======================================================================================
+   Concurrent waiters of one hook; instants that are observed late. *)
+
+(* ---- stacked reservations ---- *)
+Lemma stacked_state I B : 0 < I -> 1 <= B ->
+  forall arr b l, lim_state I B b l -> sortedb (l :: arr) = true ->
+  forall i ti tj ai aj,
+  nth_error arr i = Some ti -> nth_error arr (S i) = Some tj ->
+  nth_error (grants b arr) i = Some (Some ai) -> nth_error (grants b arr) (S i) = Some (Some aj) ->
+  tj < aj -> aj <= ai + I /\ (ti < ai -> aj = ai + I).
+Proof.
+  intros HI HB arr. induction arr as [|t r IH]; intros b l Hst Hs i ti tj ai aj Hti Htj Hai Haj Hw.
+  - destruct i; discriminate.
+  - apply sortedb_cons in Hs as [Hle Hs].
+    destruct (reserve_step HI HB Hst Hle) as (b' & a & Hr & Hst' & Hz & Ha).
+    cbn [grants] in Hai, Haj. rewrite Hr in Hai, Haj.
+    destruct i as [|i'].
+    + cbn in Hti, Hai. inversion Hti; inversion Hai; subst ti ai. clear Hti Hai.
+      destruct r as [|t2 r2]; [discriminate|]. cbn in Htj. inversion Htj; subst t2. clear Htj.
+      apply sortedb_cons in Hs as [Hle2 Hs2].
+      destruct (reserve_step HI HB Hst' Hle2) as (b2 & a2 & Hr2 & Hst2 & Hz2 & Ha2).
+      cbn [nth_error grants] in Haj. rewrite Hr2 in Haj. cbn in Haj. inversion Haj; subst aj. clear Haj.
+      assert (HBI : I <= B * I) by nia.
+      split; [|intros Hd]; lia.
+    + cbn [nth_error] in Hti, Htj, Hai, Haj.
+      exact (IH b' t Hst' Hs i' ti tj ai aj Hti Htj Hai Haj Hw).
+Qed.
+
+Lemma stacked_reservations I B arrivals : 0 < I -> 1 <= B -> sortedb arrivals = true ->
+  forall i ti tj ai aj,
+  nth_error arrivals i = Some ti -> nth_error arrivals (S i) = Some tj ->
+  nth_error (grants (create_rate_limiter (Some (mkSettings I B))) arrivals) i = Some (Some ai) ->
+  nth_error (grants (create_rate_limiter (Some (mkSettings I B))) arrivals) (S i) = Some (Some aj) ->
+  tj < aj -> aj <= ai + I /\ (ti < ai -> aj = ai + I).
+Proof.
+  intros HI HB Hs i ti tj ai aj Hti Htj Hai Haj Hw.
+  rewrite (create_limited HI HB) in Hai, Haj. rewrite (grants_first I arrivals HB) in Hai, Haj.
+  destruct arrivals as [|t r]; [destruct i; discriminate|].
+  eapply (@stacked_state I B HI HB (t :: r) _ t); try eassumption.
+  - unfold lim_state; cbn; auto.
+  - apply sortedb_dup; exact Hs.
+Qed.
+
+(* n requests at one instant: the first B act at once, the (B+k)-th k intervals later *)
+Lemma concurrent_state I B t : 0 < I -> 1 <= B ->
+  forall n b m, lim_state I B b t -> 0 <= m -> zb b t = t - B * I + m * I ->
+  forall k, (k < n)%nat ->
+  nth_error (grants b (repeat t n)) k = Some (Some (t + Z.max 0 (m + Z.of_nat k + 1 - B) * I)).
+Proof.
+  intros HI HB. induction n as [|n IH]; intros b m Hst Hm Hz k Hk; [lia|].
+  cbn [repeat grants].
+  destruct (reserve_step HI HB Hst (Z.le_refl t)) as (b' & a & Hr & Hst' & Hz' & Ha). rewrite Hr.
+  destruct k as [|k'].
+  - cbn. f_equal. f_equal. subst a. rewrite Hz', Hz. nia.
+  - cbn [nth_error]. rewrite (IH b' (m + 1) Hst' ltac:(lia)); [| rewrite Hz', Hz; nia | lia].
+    f_equal. f_equal. rewrite Nat2Z.inj_succ. f_equal. f_equal. lia.
+Qed.
+
+Lemma concurrent_waiters I B t n k : 0 < I -> 1 <= B -> (k < n)%nat ->
+  nth_error (grants (create_rate_limiter (Some (mkSettings I B))) (repeat t n)) k
+  = Some (Some (t + Z.max 0 (Z.of_nat k + 1 - B) * I)).
+Proof.
+  intros HI HB Hk. rewrite (create_limited HI HB), (grants_first I (repeat t n) HB).
+  destruct n as [|n]; [lia|]. cbn [repeat].
+  change (t :: repeat t n) with (repeat t (S n)).
+  rewrite (@concurrent_state I B t HI HB (S n) (mkBucket (Some I) B (B * I) (Some t)) 0); try lia.
+  - reflexivity.
+  - unfold lim_state; cbn; auto.
+  - unfold zb; cbn. lia.
+Qed.
+
+(* ---- later requests are granted later ---- *)
+Lemma grants_monotone_state I B : 0 < I -> 1 <= B ->
+  forall arr arr' b l b2 l2, Forall2 Z.le arr arr' ->
+  lim_state I B b l -> lim_state I B b2 l2 -> zb b l <= zb b2 l2 ->
+  sortedb (l :: arr) = true -> sortedb (l2 :: arr') = true ->
+  Forall2 Z.le (somes (grants b arr)) (somes (grants b2 arr')).
+Proof.
+  intros HI HB arr arr' b l b2 l2 HF. revert b l b2 l2.
+  induction HF as [|t t' r r' Htt HF IH]; intros b l b2 l2 Hst Hst2 Hz Hs Hs2; [constructor|].
+  apply sortedb_cons in Hs as [Hle Hs]. apply sortedb_cons in Hs2 as [Hle2 Hs2].
+  destruct (reserve_step HI HB Hst Hle) as (b' & a & Hr & Hst' & Hz' & Ha).
+  destruct (reserve_step HI HB Hst2 Hle2) as (b2' & a2 & Hr2 & Hst2' & Hz2' & Ha2).
+  cbn [grants]. rewrite Hr, Hr2. cbn [somes]. constructor; [lia|].
+  apply (IH b' t b2' t' Hst' Hst2'); [lia | exact Hs | exact Hs2].
+Qed.
+
+Lemma grants_monotone I B arr arr' : 0 < I -> 1 <= B ->
+  Forall2 Z.le arr arr' -> sortedb arr = true -> sortedb arr' = true ->
+  Forall2 Z.le (somes (grants (create_rate_limiter (Some (mkSettings I B))) arr))
+               (somes (grants (create_rate_limiter (Some (mkSettings I B))) arr')).
+Proof.
+  intros HI HB HF Hs Hs'. rewrite (create_limited HI HB), !(grants_first I _ HB).
+  destruct HF as [|t t' r r' Htt HF]; [constructor|].
+  apply (@grants_monotone_state I B HI HB (t :: r) (t' :: r') _ t _ t').
+  - constructor; assumption.
+  - unfold lim_state; cbn; auto.
+  - unfold lim_state; cbn; auto.
+  - unfold zb; cbn. lia.
+  - apply sortedb_dup; exact Hs.
+  - apply sortedb_dup; exact Hs'.
+Qed.
+
+(* ---- windows that begin at a known instant, judged on instants observed late ---- *)
+Lemma anchored_from_intro I B a : forall l k,
+  (forall j m, nth_error l j = Some m -> k + Z.of_nat j <= B + ceil_div (m - a) I) ->
+  anchored_from I B a k l = true.
+Proof.
+  induction l as [|m r IH]; intros k H; [reflexivity|].
+  cbn [anchored_from]. apply andb_true_iff; split.
+  - apply Z.leb_le. specialize (H 0%nat m eq_refl). cbn in H. lia.
+  - apply IH. intros j m' Hj. specialize (H (S j) m' Hj). rewrite Nat2Z.inj_succ in H. lia.
+Qed.
+
+Lemma sortedb_filter p : forall l, sortedb l = true -> sortedb (filter p l) = true.
+Proof.
+  induction l as [|x r IH]; intros Hs; [reflexivity|].
+  pose proof (sortedb_Forall _ _ Hs) as Hf. specialize (IH (sortedb_tail _ _ Hs)).
+  cbn [filter]. destruct (p x); [|exact IH].
+  apply sortedb_cons_intro; [|exact IH].
+  rewrite Forall_forall in *. intros y Hy. apply filter_In in Hy as [Hy _]. exact (Hf y Hy).
+Qed.
+
+Lemma filter_filter_and A (p q : A -> bool) : forall l,
+  filter q (filter p l) = filter (fun x => p x && q x) l.
+Proof.
+  induction l as [|x r IH]; [reflexivity|]. cbn [filter].
+  destruct (p x); cbn [filter andb]; [destruct (q x); [f_equal|]; exact IH | exact IH].
+Qed.
+
+Lemma sorted_prefix_le : forall l j m, sortedb l = true -> nth_error l j = Some m ->
+  (j + 1 <= length (filter (fun x => Z.leb x m) l))%nat.
+Proof.
+  induction l as [|x r IH]; intros j m Hs Hn; [destruct j; discriminate|].
+  pose proof (sortedb_Forall _ _ Hs) as Hf.
+  destruct j as [|j'].
+  - cbn in Hn. inversion Hn; subst. cbn [filter]. rewrite Z.leb_refl. cbn [length]. lia.
+  - cbn [nth_error] in Hn.
+    assert (Hxm : x <= m).
+    { rewrite Forall_forall in Hf. apply Hf. eapply nth_error_In; exact Hn. }
+    cbn [filter]. apply Z.leb_le in Hxm. rewrite Hxm. cbn [length].
+    specialize (IH j' m (sortedb_tail _ _ Hs) Hn). lia.
+Qed.
+
+(* observing late moves starts out of a window that begins at an anchor, never into it *)
+Lemma late_count a m : forall reals meas, Forall2 Z.le reals meas ->
+  (forall r x, In (r, x) (List.combine reals meas) -> a <= x -> a <= r) ->
+  (length (filter (fun x => Z.leb a x && Z.leb x m) meas) <= length (filter (in_window a (m - a)) reals))%nat.
+Proof.
+  intros reals meas HF. induction HF as [|r x rs xs Hrx HF IH]; intros Hanch; [cbn; lia|].
+  assert (IH' := IH (fun r0 x0 Hin => Hanch r0 x0 (or_intror Hin))).
+  cbn [filter]. destruct ((a <=? x) && (x <=? m)) eqn:Ex.
+  - apply andb_true_iff in Ex as [E1 E2]. apply Z.leb_le in E1, E2.
+    assert (Har : a <= r) by (apply (Hanch r x); [left; reflexivity | exact E1]).
+    assert (Ew : in_window a (m - a) r = true).
+    { unfold in_window. apply andb_true_iff; split; apply Z.leb_le; lia. }
+    rewrite Ew. cbn [length]. lia.
+  - destruct (in_window a (m - a) r); cbn [length]; lia.
+Qed.
+
+Lemma late_observation_sound I B a reals meas :
+  0 < I -> respects_limit I B reals -> Forall2 Z.le reals meas -> sortedb meas = true ->
+  (forall r x, In (r, x) (List.combine reals meas) -> a <= x -> a <= r) ->
+  anchored_ok I B a meas = true.
+Proof.
+  intros HI Hresp HF Hs Hanch. unfold anchored_ok. apply anchored_from_intro. intros j m Hj.
+  set (F := filter (fun x => a <=? x) meas) in *.
+  assert (HsF : sortedb F = true) by (apply sortedb_filter; exact Hs).
+  pose proof (sorted_prefix_le F j m HsF Hj) as H1. unfold F in H1. rewrite filter_filter_and in H1.
+  pose proof (late_count a m reals meas HF Hanch) as H2.
+  assert (Ham : a <= m).
+  { apply nth_error_In in Hj. apply filter_In in Hj as [_ Hj]. apply Z.leb_le in Hj. exact Hj. }
+  specialize (Hresp a (m - a) ltac:(lia)). unfold count_in in Hresp. lia.
+Qed.
+
+Lemma Forall2_le_refl : forall l, Forall2 Z.le l l.
+Proof. induction l; constructor; [lia | assumption]. Qed.
+
+Lemma In_combine_same : forall (l : list Z) r x, In (r, x) (List.combine l l) -> r = x.
+Proof.
+  induction l as [|y l IH]; intros r x H; [destruct H|].
+  destruct H as [H|H]; [inversion H; reflexivity | exact (IH r x H)].
+Qed.
+
+(* the starts of the model satisfy the anchored form for every anchor *)
+Lemma op_starts_sorted cfg hs script h : sortedb (map fst script) = true ->
+  sortedb (starts_in h (final_log cfg hs script)) = true.
+Proof. intros Hs. destruct (op_hinv cfg hs script h Hs) as (now & _ & _ & _ & _ & _ & H6 & _). exact H6. Qed.
+
+Lemma op_P_timed_holds cfg hs script anchors : sortedb (map fst script) = true ->
+  P_timed hs anchors (starts_all (final_log cfg hs script)) = true.
+Proof.
+  intros Hs. unfold P_timed. apply forallb_forall. intros h _. rewrite starts_of_all.
+  unfold P_hook_anchored. destruct (settings_of hs h) as [[I B]|] eqn:Hset; [|reflexivity].
+  cbn [s_interval s_burst].
+  destruct (Z.ltb_spec 0 I) as [HI|_]; [|reflexivity].
+  destruct (Z.leb_spec 1 B) as [HB|_]; [|reflexivity].
+  cbn [andb]. rewrite (op_starts_sorted cfg hs script h Hs). cbn [andb].
+  apply forallb_forall. intros a _.
+  apply (late_observation_sound I B a (starts_in h (final_log cfg hs script))); try assumption.
+  - exact (op_respects_limit cfg hs script h I B Hset HI HB Hs).
+  - apply Forall2_le_refl.
+  - exact (op_starts_sorted cfg hs script h Hs).
+  - intros r x Hin Hax. apply In_combine_same in Hin. subst. exact Hax.
 Qed.
